@@ -10,4 +10,12 @@ impl MetricsPusher {
         });
         p
     }
+    /// Registers a further (local, global) pair, in registration order.
+    pub(crate) fn folo_verif_add_pair(&self, local: Rc<ObservationBag>, global: Arc<ObservationBagSync>) {
+        self.push_registry.borrow_mut().push(LocalGlobalPair {
+            local,
+            global,
+            last_pushed_count: Cell::new(0),
+        });
+    }
 }
